@@ -214,11 +214,21 @@ func mt(binary bool) int {
 	return webtrans.TextMessage
 }
 
+func scribble(b []byte) {
+	for i := range b {
+		b[i] = 0xA5
+	}
+}
+
 // writeWT writes one message through the chosen API.
 func writeWT(c *webtrans.Conn, m wtMsg) error {
 	switch m.API {
 	case "message":
-		return c.WriteMessage(mt(m.Binary), m.data)
+		// the caller's buffer is the caller's again once the call has returned
+		buf := append([]byte(nil), m.data...)
+		err := c.WriteMessage(mt(m.Binary), buf)
+		scribble(buf)
+		return err
 	case "prepared":
 		pm, err := webtrans.NewPreparedMessage(mt(m.Binary), m.data)
 		if err != nil {
@@ -232,15 +242,28 @@ func writeWT(c *webtrans.Conn, m wtMsg) error {
 	}
 	switch m.API {
 	case "writer":
+		// every chunk goes through one scratch buffer that is overwritten as soon as Write has
+		// returned (an io.Writer must not keep p): a copy loop with a reused buffer
 		d := m.data
+		var scratch []byte
+		put := func(chunk []byte) error {
+			if cap(scratch) < len(chunk) {
+				scratch = make([]byte, len(chunk))
+			}
+			b := scratch[:len(chunk)]
+			copy(b, chunk)
+			_, err := w.Write(b)
+			scribble(b)
+			return err
+		}
 		for _, n := range m.Chunks {
-			if _, err := w.Write(d[:n]); err != nil {
+			if err := put(d[:n]); err != nil {
 				return err
 			}
 			d = d[n:]
 		}
 		if len(d) > 0 {
-			if _, err := w.Write(d); err != nil {
+			if err := put(d); err != nil {
 				return err
 			}
 		}
